@@ -461,3 +461,13 @@ fn debug_assert_nones(ptr: NonNull<CcBox<()>>) {
         debug_assert!((*ptr.as_ref().get_prev()).is_none());
     }
 }
+
+#[cfg(feature = "verif-hooks")]
+impl PossibleCycles {
+    /// (Verification hook) Overwrites the cached size.
+    #[inline]
+    #[allow(dead_code)] // Only used with auto-collect
+    pub(crate) fn verif_set_size(&self, size: usize) {
+        self.size.set(size);
+    }
+}
